@@ -1,69 +1,279 @@
 """C05, last sentence — "No accepted commit or proposal changes the Nostr identity bound to an existing member".
 
-Implementation-only probe (second engine of ./check C05).  The client model has no notion of a credential that changes
-(identities are the model's client numbers; Props/C05.lean says so), so the sentence rests on `validate_commit_identities`
-alone.  The mutation campaign (DESIGN §13.15, mutant M0357: the call of `validate_identity_unchanged` for the update path
-deleted) showed that nothing exercised it: no harness op built such a commit.  Now `advident <i> <ts>` (harness/src/world.rs)
-makes member i build, with OpenMLS directly, a commit whose update path re-binds its own leaf to ANOTHER identity (fresh
-credential and signature key, no proposal — for mdk's authorisation a pure self-update, so admins and non-admins get equally
-far).  Oracle, on the implementation's answers alone, for every receiver of such a commit:
-  * the answer is not `commit`                                      (identity-change-accepted)
-  * epoch, MLS state, member set, group data, pending proposals and messages are what they were (identity-change-refused-with-effect)
-  * the member list never contains an identity that is not a client of the world (`x`)    (foreign-identity-in-member-list)
-and honest traffic afterwards (a self-update by an admin, a message) is still accepted by everybody.
+Second engine of ./check C05: CORRESPONDENCE of `Model.Identity` (theorems: Props/C05.lean, section Identity; DESIGN §13.18) with the
+real code, plus an implementation-only ORACLE.
+
+A world of 3-4 real MDK instances (memory / SQLite mixed).  Members craft, with OpenMLS directly (harness ops `advid`, `advident`):
+  path  same|other|c<j>|bad   a commit without proposals whose update path carries a FRESH signature key and: its own identity /
+                              a fresh foreign one / member j's / identity bytes that are no key
+  pathk same|other|c<j>       the same with the OLD signature key kept (only the credential's identity differs)
+  uprop same|other|c<j>       a stand-alone Update proposal with that identity
+  commitref <ev>              another member's commit that carries such an Update proposal by reference
+and the honest API sends self-updates and an Add of a key package whose identity IS a member.  Every other member is offered
+every event.  For every delivery the driver (`mdkdrv ident`: `Identity.processCommit codeShape openmls081` / `processProposal`)
+is given the receiver's model state (leaf ↦ credential, admins, proposal store — carried by the MODEL from the group's creation on)
+and the event's content, and predicts accept / refuse and the tree afterwards; compared with the implementation's answer and with
+its ratchet tree (`leaves`: `get_ratchet_tree_info`, identities as client numbers) after EVERY step.  Error kinds are not compared:
+`process_message` answers a refused commit `Unprocessable` whatever the reason.
+
+Oracle, on the implementation's answers alone, for every receiver of an identity-changing event:
+  * the answer is not `commit`                                                              (identity-change-accepted)
+  * epoch, MLS state, member set, group data, pending proposals and messages are what they were  (identity-change-refused-with-effect)
+  * the member list / tree never shows an identity that is nobody's, and no leaf's identity differs from what it was while the
+    leaf's member was not removed                         (foreign-identity-in-member-list, leaf-identity-changed)
+and honest traffic afterwards is still accepted by everybody.
 """
-import random
+import random, subprocess
+from . import common as C
 from . import worldeng as W
 
-def gen_probe(wid, rng):
-    n = rng.choice([3, 3, 4])
-    w = W.World(wid)
-    backends = [rng.choice(["mem", "sql"]) for _ in range(n)]
-    admins = sorted(rng.sample(range(n), rng.choice([1, 1, 2])) + ([0] if True else []))
-    admins = sorted(set(admins))
-    w.setup_group(n, backends, admins)
-    w.meta = {"flavour": "ident", "admins": admins, "backends": backends}
-    ts = 40
-    crafted = []
-    authors = [rng.choice([i for i in range(n) if i not in admins] or [1]), rng.choice(admins)]
+FOREIGN = 1000      # model identities >= FOREIGN belong to no client (`x` in the harness' output)
+
+class Drv:
+    def __init__(self):
+        self.p = subprocess.Popen([C.DRV, "ident"], stdin=subprocess.PIPE, stdout=subprocess.PIPE, text=True, bufsize=1)
+    def ask(self, line):
+        self.p.stdin.write(line + "\n"); self.p.stdin.flush()
+        return self.p.stdout.readline().rstrip("\n")
+    def close(self):
+        try:
+            self.p.stdin.close(); self.p.wait(timeout=10)
+        except Exception:
+            self.p.kill()
+
+def show_tree(t):
+    return ",".join(f"{l}:{c}" for l, c in sorted(t.items())) or "-"
+
+def parse_tree(s):
+    return {} if s == "-" else {int(x.split(":")[0]): x.split(":")[1] for x in s.split(",")}
+
+def who_of(cred):
+    """a model credential as the harness would print its identity"""
+    if cred[0] != "b":
+        return "bad"
+    i = int(cred[1:].split(".")[0])
+    return "x" if i >= FOREIGN else str(i)
+
+def tree_view(t):
+    return ",".join(f"{l}:{who_of(c)}" for l, c in sorted(t.items())) or "-"
+
+class Probe:
+    """one world + the model state of every client"""
+    def __init__(self, wid, rng, drv):
+        self.rng, self.drv = rng, drv
+        n = rng.choice([3, 3, 4])
+        self.n = n
+        self.w = W.World(wid)
+        backends = [rng.choice(["mem", "sql"]) for _ in range(n)]
+        self.admins = sorted(set(rng.sample(range(n), rng.choice([1, 1, 2])) + [0]))
+        self.w.setup_group(n, backends, self.admins)
+        self.w.meta = {"flavour": "ident", "admins": self.admins, "backends": backends}
+        self.key = 200
+        self.foreign = FOREIGN
+        # model state per client: creator on leaf 0, welcomed members on 1.. in key-package order
+        self.tree = [{l: f"b{l}.{100 + l}" for l in range(n)} for _ in range(n)]
+        self.store = [[] for _ in range(n)]
+        self.ev = {}            # event number -> model content: dict(kind 'commit'|'proposal', author, props=[(body, author)], path, changes)
+        self.corr, self.compared = [], 0
+        self.ts = 40
+        for c in range(n):
+            self.observe(c)
+    # ---- helpers ------------------------------------------------------------------------------------------------------------
+    def fresh_key(self):
+        self.key += 1
+        return self.key
+    def ident_of(self, author, what):
+        if what == "same":
+            return f"b{author}"
+        if what == "other":
+            self.foreign += 1
+            return f"b{self.foreign}"
+        if what == "bad":
+            return "x7"
+        return f"b{int(what[1:])}"
+    def leaf_of(self, c, member):
+        ls = [l for l, cr in sorted(self.tree[c].items()) if who_of(cr) == str(member)]
+        return ls[0] if ls else None
+    def mismatch(self, what):
+        k = len(self.w.trace) - 1
+        self.corr.append({"kind": "corr", "prop": "C05", "props": ["C05"], "signature": "corr:ident:" + self.w.trace[k][0].split()[0],
+                          "what": f"world {self.w.id} step {k} `{self.w.trace[k][0]}`: {what}", "replay_body": self.w.text(k, what)})
+    def observe(self, c):
+        r, _ = self.w.do(f"leaves {c}")
+        self.compared += 1
+        want = "leaves " + tree_view(self.tree[c])
+        if r != want:
+            self.mismatch(f"client {c}: the implementation's tree is `{r}`, the model's `{want}`")
+    def cred(self, ident, key):
+        return f"{ident}.{key}" if ident[0] == "b" else ident
+    def line_commit(self, c, e):
+        snd = self.leaf_of(c, e["author"])
+        props = ";".join(f"{body}@m{self.leaf_of(c, a)}@{r}" for body, a, r in e["props"]) or "-"
+        store = ";".join(self.store[c]) or "-"
+        return f"commit {show_tree(self.tree[c])} {','.join(map(str, self.admins))} {store} m{snd} {props} {e['path'] or '-'}"
+    # ---- actions ------------------------------------------------------------------------------------------------------------
+    def craft(self, author, mode, what):
+        self.ts += 10
+        kind = "proposal" if mode == "uprop" else "commit"
+        n = self.w.publish(f"advid {author} {mode} {what} {self.ts}", kind, author)
+        if n is None:
+            return None
+        if mode in ("path", "pathk"):
+            ident = self.ident_of(author, what)
+            key = self.fresh_key() if mode == "path" else int(self.tree[author][self.leaf_of(author, author)].split(".")[1])
+            self.ev[n] = {"kind": "commit", "author": author, "props": [], "path": self.cred(ident, key), "changes": what != "same", "crafted": True}
+        elif mode == "uprop":
+            ident = self.ident_of(author, what)
+            key = int(self.tree[author][self.leaf_of(author, author)].split(".")[1])
+            self.ev[n] = {"kind": "proposal", "author": author, "body": "U" + self.cred(ident, key), "changes": what != "same", "crafted": True}
+            self.w.events[n]["sub"] = "update"
+        else:
+            p = self.ev[int(what)]
+            self.ev[n] = {"kind": "commit", "author": author, "props": [(p["body"], p["author"], "r")], "path": f"b{author}.{self.fresh_key()}",
+                          "changes": p["changes"], "crafted": True}
+        return n
+    def honest(self, author, op, arg=None):
+        self.ts += 10
+        if op == "selfupdate":
+            n = self.w.publish(f"selfupdate {author} {self.ts}", "commit", author)
+            if n is not None:
+                self.ev[n] = {"kind": "commit", "author": author, "props": [], "path": f"b{author}.{self.fresh_key()}", "changes": False, "crafted": False}
+        else:   # add <kp of a present member j>
+            j = arg
+            r, _ = self.w.do(f"kp {j}")
+            if not r.startswith("kp="):
+                return None
+            n = self.w.publish(f"add {author} {r.split('=')[1]} {self.ts}", "commit", author)
+            if n is not None:
+                self.ev[n] = {"kind": "commit", "author": author, "props": [(f"Ab{j}.{self.fresh_key()}", author, "i")], "path": f"b{author}.{self.fresh_key()}",
+                              "changes": False, "crafted": False}
+        return n
+    def deliver(self, c, n):
+        e = self.ev[n]
+        r, _ = self.w.do(f"deliver {c} {n}")
+        self.compared += 1
+        got = r.split()[0]
+        if e["kind"] == "commit":
+            ans = self.drv.ask(self.line_commit(c, e))
+            if ans.startswith("ok "):
+                if got != "commit":
+                    self.mismatch(f"client {c}: the model accepts (`{ans}`), the implementation answered `{r}`")
+                else:
+                    self.tree[c] = parse_tree(ans[3:]); self.store[c] = []
+            elif ans.startswith("err:"):
+                if got == "commit":
+                    self.mismatch(f"client {c}: the model refuses (`{ans}`), the implementation answered `commit`")
+            else:
+                self.mismatch(f"driver: `{ans}`")
+            self.last_model = ans
+        else:
+            snd = self.leaf_of(c, e["author"])
+            q = f"{e['body']}@m{snd}@r"
+            ans = self.drv.ask(f"proposal {show_tree(self.tree[c])} {','.join(map(str, self.admins))} {';'.join(self.store[c]) or '-'} {q}")
+            if ans.startswith("stored"):
+                self.store[c] = ans.split()[1].split(";")
+            if (ans.split()[0] == "stored") != (got == "pending") or (ans.split()[0] == "ignored" and got != "ignored"):
+                self.mismatch(f"client {c}: the model says `{ans.split()[0]}`, the implementation answered `{r}`")
+        self.observe(c)
+        return got
+    def merge(self, author, n):
+        """the author applies its own (kept) commit: mdk merges a pending commit without validating it; the model applies the same content"""
+        r, _ = self.w.do(f"merge {author}")
+        ans = self.drv.ask(self.line_commit(author, self.ev[n]))
+        if r == "ok" and ans.startswith("ok "):
+            self.tree[author] = parse_tree(ans[3:]); self.store[author] = []
+        elif r == "ok":
+            self.mismatch(f"author {author} merged its own commit, the model says `{ans}`")
+        self.observe(author)
+    def round(self, author, n, again=0.3):
+        """everybody else is offered event n (refusals sometimes twice: they must repeat); True iff all accepted"""
+        order = [c for c in range(self.n) if c != author]
+        self.rng.shuffle(order)
+        res = []
+        for c in order:
+            g = self.deliver(c, n)
+            res.append(g)
+            if g != "commit" and self.ev[n]["kind"] == "commit" and self.rng.random() < again:
+                self.deliver(c, n)
+        return res
+
+def gen_probe(wid, rng, drv, flavour=None):
+    p = Probe(wid, rng, drv)
+    n, admins = p.n, p.admins
+    nonadmins = [i for i in range(n) if i not in admins] or [1]
+    flavour = flavour or rng.choice(["path", "pathk", "ref", "mixed"])
+    p.w.meta["flavour"] = "ident:" + flavour
+    def accepted_commit(a, e):
+        if e is None:
+            return
+        res = p.round(a, e)
+        if res and all(g == "commit" for g in res):
+            p.merge(a, e)
+        else:
+            p.w.do(f"clear {a}")
+            p.observe(a)
+    if rng.random() < 0.5:
+        accepted_commit(admins[0], p.honest(admins[0], "selfupdate"))
+    authors = [rng.choice(nonadmins), rng.choice(admins)]
     rng.shuffle(authors)
     for a in authors:
-        # optionally some honest traffic first, so that the commit is not always for epoch 1
-        if rng.random() < 0.5:
-            ts += 10
-            e = w.publish(f"selfupdate {admins[0]} {ts}", "commit", admins[0])
+        others = [j for j in range(n) if j != a]
+        if flavour in ("path", "pathk", "mixed"):
+            mode = flavour if flavour != "mixed" else rng.choice(["path", "pathk"])
+            whats = [rng.choice(["other", "other", f"c{rng.choice(others)}", "bad" if mode == "path" else "other"]), "same"]
+            rng.shuffle(whats)
+            for what in whats:
+                e = p.craft(a, mode, what)
+                if e is None:
+                    continue
+                if what == "same":
+                    accepted_commit(a, e)
+                else:
+                    p.round(a, e)
+        if flavour in ("ref", "mixed"):
+            what = rng.choice(["other", "same", f"c{rng.choice(others)}"])
+            e = p.craft(a, "uprop", what)
             if e is not None:
-                w.do(f"merge {admins[0]}")
-                for c in range(n):
-                    if c != admins[0]:
-                        w.do(f"deliver {c} {e}")
-        ts += 10
-        e = w.publish(f"advident {a} {ts}", "commit", a)
-        if e is None:
-            continue
-        crafted.append(e)
-        order = [c for c in range(n) if c != a]
-        rng.shuffle(order)
-        for c in order:
-            w.do(f"deliver {c} {e}")
-            if rng.random() < 0.3:
-                w.do(f"deliver {c} {e}")      # again: the refusal must repeat
+                p.round(a, e)
+                k = rng.choice(others if rng.random() < 0.7 else admins)
+                if k != a:
+                    ce = p.craft(k, "commitref", str(e))
+                    if ce is not None:
+                        p.round(k, ce)
+    if flavour == "mixed" or rng.random() < 0.4:
+        # the honest API adds a SECOND leaf for an identity that is a member already
+        a = admins[0]
+        accepted_commit(a, p.honest(a, "add", rng.choice([j for j in range(n) if j != a])))
     # honest traffic afterwards
-    ts += 10
-    e = w.publish(f"selfupdate {admins[0]} {ts}", "commit", admins[0])
-    if e is not None:
-        w.do(f"merge {admins[0]}")
-        for c in range(n):
-            if c != admins[0]:
-                w.do(f"deliver {c} {e}")
-    ts += 10
+    accepted_commit(admins[0], p.honest(admins[0], "selfupdate"))
+    p.ts += 10
     s = rng.choice(range(n))
-    e = w.publish(f"send {s} 7 {ts}", "app", s)
+    e = p.w.publish(f"send {s} 7 {p.ts}", "app", s)
     if e is not None:
         for c in range(n):
-            w.do(f"deliver {c} {e}")
-    w.close()
-    return w
+            p.w.do(f"deliver {c} {e}")
+    p.w.close()
+    p.w.ident_events = p.ev
+    return p
+
+def changing_events(w):
+    """event numbers of this trace that carry an identity change, read off the COMMANDS alone (so that a replayed trace needs no model)"""
+    ch, upd = set(), {}
+    for cmd, res, _ in w.trace:
+        t = cmd.split()
+        if not res.startswith("ev="):
+            continue
+        n = int(res.split()[0][3:])
+        if t[0] == "advident":
+            ch.add(n)
+        elif t[0] == "advid":
+            if t[2] in ("path", "pathk") and t[3] != "same":
+                ch.add(n)
+            elif t[2] == "uprop":
+                upd[n] = t[3] != "same"
+            elif t[2] == "commitref" and upd.get(int(t[3])):
+                ch.add(n)
+    return ch, upd
 
 def oracle(w):
     """failures of one probe world (implementation's answers only)"""
@@ -71,52 +281,64 @@ def oracle(w):
     def fail(k, sig, what):
         fails.append({"kind": "oracle", "prop": "C05", "props": ["C05"], "signature": sig,
                       "what": f"world {w.id} step {k} `{w.trace[k][0]}`: {what}", "replay_body": w.text(k, what)})
-    crafted, last = set(), {}
+    changing, upd = changing_events(w)
+    stats["crafted"] = len(changing)
+    last, leaves = {}, {}
     for k, (cmd, res, fp) in enumerate(w.trace):
         t = cmd.split()
         f = W.parse_fp(fp) if fp else None
-        if t[0] == "advident":
-            if res.startswith("ev="):
-                crafted.add(int(res.split()[0][3:])); stats["crafted"] += 1
         if f is not None and "x" in f["members"].split(","):
             fail(k, "foreign-identity-in-member-list", f"member list {f['members']} names an identity that belongs to no client")
-        if t[0] == "deliver" and int(t[2]) in crafted:
+        if t[0] == "leaves" and res.startswith("leaves "):
+            c = int(t[1])
+            now = {} if res == "leaves -" else dict(x.split(":") for x in res[7:].split(","))
+            if any(v in ("x", "bad") for v in now.values()):
+                fail(k, "foreign-identity-in-member-list", f"client {c}'s tree {res[7:]} binds a leaf to an identity that belongs to no client")
+            before = leaves.get(c)
+            if before is not None:
+                # a leaf occupied before and after with another identity: only a removal + add may do that (none in these worlds)
+                for l, who in before.items():
+                    if l in now and now[l] != who:
+                        fail(k, "leaf-identity-changed", f"client {c}: leaf {l} was bound to identity {who}, now to {now[l]}")
+            leaves[c] = now
+        if t[0] == "deliver" and int(t[2]) in changing:
             c = int(t[1])
             stats["deliveries"] += 1
             if res.split()[0] == "commit" or res.startswith("ok"):
-                fail(k, "identity-change-accepted", f"a commit that re-binds its author's leaf to another Nostr identity was answered `{res}`")
+                fail(k, "identity-change-accepted", f"a commit that re-binds a member's leaf to another Nostr identity was answered `{res}`")
             else:
                 stats["refused"] += 1
                 before = last.get(c)
                 if before is not None and f is not None and W.proj(before) != W.proj(f):
                     fail(k, "identity-change-refused-with-effect", f"refused (`{res}`) but the group changed: {before['raw'][:120]} -> {f['raw'][:120]}")
-        if len(t) > 1 and t[1].isdigit() and f is not None and t[0] != "advident":
+        if len(t) > 1 and t[1].isdigit() and f is not None and t[0] not in ("rewrap", "retag"):
             last[int(t[1])] = f
-        elif t[0] == "advident" and f is not None:
-            last[int(t[1])] = f
-    # honest traffic after the crafted commits: the final self-update and message are accepted by every receiver
-    tail = [(k, c, r) for k, (c, r, _) in enumerate(w.trace) if c.startswith("deliver ")]
-    honest = [(k, c, r) for k, c, r in tail if int(c.split()[2]) not in crafted and int(c.split()[2]) >= (max(crafted) if crafted else 0)]
-    for k, c, r in honest:
-        ev = w.events.get(int(c.split()[2])) or {}
-        if ev.get("sender") == int(c.split()[1]):
+    # honest traffic after the crafted events: what follows the last crafted event is accepted by every receiver
+    crafted = {int(r.split()[0][3:]) for c, r, _ in w.trace if c.split()[0] in ("advid", "advident") and r.startswith("ev=")}
+    hi = max(crafted) if crafted else -1
+    for k, (c, r, _) in enumerate(w.trace):
+        t = c.split()
+        if t[0] != "deliver" or int(t[2]) in crafted or int(t[2]) < hi:
+            continue
+        ev = w.events.get(int(t[2])) or {}
+        if ev.get("sender") == int(t[1]):
             continue
         if not (r.startswith("commit") or r.startswith("app")):
             fail(k, "honest-event-refused-after-identity-probe", f"honest event answered `{r}`")
     return fails, stats
 
 def is_trace(text):
-    return any(l.startswith("advident ") for l in text.split("\n"))
+    return any(l.startswith(("advident ", "advid ")) for l in text.split("\n"))
 
 def replay(path):
-    """./check C05 --replay <trace of this probe>: implementation only (the model knows no such commit)"""
+    """./check C05 --replay <trace of this probe>: the commands on the implementation, the oracle on its answers (the model is not asked)"""
     w = W.World("replay:" + path.rsplit("/", 1)[-1])
     for l in open(path):
         l = l.strip()
         if not l or l.startswith("#") or l == "world":
             continue
         t = l.split()
-        if t[0] in ("send", "selfupdate", "advident", "data", "remove", "add", "leave"):
+        if t[0] in ("send", "selfupdate", "advident", "advid", "data", "remove", "add", "leave"):
             w.publish(l, "app" if t[0] == "send" else "commit", int(t[1]))
         else:
             if t[0] == "client":
@@ -131,29 +353,58 @@ def replay(path):
     print("verdict:", "property violated on the implementation" if fails else "property holds on this trace (implementation only; not compared with the model)")
     return 1 if fails else 0
 
+FLAVOURS = ["path", "pathk", "ref", "mixed"]
+
 def second_engine(ob, facts, failures, coverage, tier, seed):
     rng = random.Random(seed * 977 + 5)
     n = 8 if tier == "quick" else 80
-    worlds, allf = [], []
+    probes, allf, corr = [], [], []
     tot = {"crafted": 0, "deliveries": 0, "refused": 0}
+    drv = Drv()
     for i in range(n):
         try:
-            w = gen_probe(f"{seed}-ident{i}", rng)
+            p = gen_probe(f"{seed}-ident{i}", rng, drv, FLAVOURS[i % len(FLAVOURS)])
         except RuntimeError as e:
             failures.append({"kind": "oracle", "prop": "C06", "props": ["C05", "C06"], "signature": "harness-died", "what": f"identity probe {i}: {e}", "replay_body": f"# {e}\n"})
             continue
-        worlds.append(w)
-        f, st = oracle(w)
+        probes.append(p)
+        f, st = oracle(p.w)
         allf += f
+        corr += p.corr
         for k in tot:
             tot[k] += st[k]
-    # the probe must have probed: a run in which no identity-changing commit could be built proves nothing
+    drv.close()
+    # the shape facts the theorems rest on (Identity.codeShape = provedShape) — reported as a tie of their own, beside the broken theorems
+    shape_ok = (facts or {}).get("identInspectedKinds") == "[2]" and (facts or {}).get("identUpdateCompared") == "true" and \
+        (facts or {}).get("identPathInspected") == "true" and (facts or {}).get("identPathCompared") == "true" and \
+        (facts or {}).get("commitCheckOrder", "").replace(" ", "") in ("[0,1,2,3]", "[0,1,3]") and (facts or {}).get("proposalKindsStored") == "[0, 1]"
+    ob.add("tie:identity-validation-shape", shape_ok,
+           "" if shape_ok else "validate_commit_identities / process_commit / process_proposal no longer have the shape Props/C05 (section Identity) was proved for: "
+           + ", ".join(f"{k}={(facts or {}).get(k)}" for k in ("identInspectedKinds", "identUpdateCompared", "identPathInspected", "identPathCompared", "commitCheckOrder", "proposalKindsStored")))
+    # the probe must have probed: a run in which no identity-changing event could be built proves nothing
     ob.add("tie:c05-identity-probe-ran", tot["crafted"] >= n and tot["deliveries"] >= 2 * n,
-           "" if tot["crafted"] >= n else f"only {tot['crafted']} identity-changing commits could be crafted in {n} worlds")
-    failures += allf
-    coverage["identity_probe"] = {"worlds": len(worlds), **tot, "oracle_failures": len(allf),
-                                  "rule": "implementation only: 3-4 members on mixed backends, an admin and a non-admin each craft a commit whose update path carries another identity (before or after honest commits), every other member is offered it (sometimes twice), then an honest self-update and a message",
-                                  "sample": [c for c, _, _ in worlds[0].trace][:30] if worlds else []}
-    coverage["evaluations"] = coverage.get("evaluations", 0) + len(worlds)
+           "" if tot["crafted"] >= n else f"only {tot['crafted']} identity-changing events could be crafted in {n} worlds")
+    failures += allf + corr
+    steps = sum(p.compared for p in probes)
+    modes = {}
+    for p in probes:
+        for c, _, _ in p.w.trace:
+            t = c.split()
+            if t[0] == "advid":
+                k = f"{t[2]}:{'ref' if t[2] == 'commitref' else t[3][0]}"
+                modes[k] = modes.get(k, 0) + 1
+    coverage["identity_probe"] = {"worlds": len(probes), **tot, "oracle_failures": len(allf), "correspondence_disagreements": len(corr), "steps_compared": steps,
+                                  "crafted_by_mode": dict(sorted(modes.items())),
+                                  "rule": "3-4 members on mixed backends; an admin and a non-admin each craft with the MLS library: commits whose update path carries their own / a foreign / another member's / "
+                                          "an unparsable identity (fresh or old signature key), stand-alone Update proposals with such a credential, another member's commit carrying one by reference; "
+                                          "the honest API adds a second leaf for a present identity; every other member is offered everything (refusals sometimes twice), accepted commits are merged by "
+                                          "their author; every answer and every receiver's tree after every step compared with Model.Identity (mdkdrv ident), then an honest self-update and a message",
+                                  "sample": [c for c, _, _ in probes[0].w.trace][:40] if probes else []}
+    coverage["evaluations"] = coverage.get("evaluations", 0) + len(probes)
+    coverage["traces_validated_against_impl"] = coverage.get("traces_validated_against_impl", 0) + len(probes)
+    coverage["steps_compared"] = coverage.get("steps_compared", 0) + steps
+    coverage["correspondence_disagreements"] = coverage.get("correspondence_disagreements", 0) + len(corr)
     coverage["oracle_failures"] = coverage.get("oracle_failures", 0) + len(allf)
-    return ["C05 identity sentence: exercised on the implementation only (vlib/c05ident.py); the client model has no changing credential, so there is no theorem and no correspondence for it — an identity-changing commit built by the MLS library directly must be refused without effect by every receiver"]
+    return ["C05 identity sentence: Model.Identity's rules for OpenMLS 0.8.1 are assumptions read off its source (no credential comparison of its own; inline and own Update proposals refused; a "
+            "by-reference proposal must be in the receiver's store; apply order updates, removes, adds, path) — exercised by the crafted cases of vlib/c05ident.py, not proved",
+            "C05 identity sentence: refusal KINDS are not compared (process_message answers every refused commit `Unprocessable`); leaf indices of the model are checked against get_ratchet_tree_info after every step"]
